@@ -27,6 +27,7 @@ POOL = [
     (["CO"], ["C"], -1.0, -1.0, 102),
     (["H+", "e-"], ["H"], 10.0, 1000.0, 100),          # lower bound of entry 3, upper bound of entry 4: equal to neither
     (["e-", "H+"], ["H"], 10.0, 300.0, 100),           # equal to entry 3
+    (["H+", "E"], ["H"], 10.0, 300.0, 100),            # equal to entry 3, the electron under its other spelling
 ]
 
 
@@ -258,7 +259,7 @@ def check_history(res, model, ids, allowed, required, ops, tag):
              nontrivial=len(wire) >= 2)
 
 
-OPS_SMALL = ([("add", k) for k in (0, 1, 2, 3, 4, 7)] + [("addfile", (1, 6)), ("rmidx", 0), ("rmidxs", (0, 1)), ("rminst", 1), ("rminst", 3), ("rminsts", (0, 3)),
+OPS_SMALL = ([("add", k) for k in (0, 1, 2, 3, 4, 7)] + [("addfile", (1, 6)), ("rmidx", 0), ("rmidxs", (0, 1)), ("rminst", 1), ("rminst", 3), ("rminsts", (0, 3)), ("rminsts", (9, 1)),
              ("allowed", tuple(ALLOWED[1])), ("allowed", tuple(ALLOWED[2])), ("allowed", ()), ("required", ("CO",)), ("rmdups",), ("reindex",)])
 
 
@@ -301,7 +302,8 @@ def check_extend(res, rng, tag):
     net = Network(reactions=rl)
     net.write(base / "in.naunet", "naunet")
     (base / "naunet_config.toml").write_text('[chemistry]\n[chemistry.symbol]\ngrain = "GRAIN"\nsurface = "#"\nbulk = "@"\n')
-    variant = ["reduce", "remove", "dups", "depletion", "remove+dups", "reduce+dups"][tag % 6] if isinstance(tag, int) else rng.choice(["reduce", "remove", "dups"])
+    variants = ["reduce", "remove", "dups", "depletion", "remove+dups", "reduce+dups", "reduce+depletion", "reduce+desorption"]
+    variant = variants[tag % len(variants)] if isinstance(tag, int) else rng.choice(["reduce", "remove", "dups"])
     args = ["extend", "in.naunet", "out.naunet"]
     if variant == "reduce":
         args.append("--reduce-by-species=H,H2,C,CH")
@@ -319,6 +321,13 @@ def check_extend(res, rng, tag):
     elif variant == "reduce+dups":
         args += ["--reduce-by-species=C,O,CO,H,OH", "--remove-duplicate"]
         want = [(["C", "O"], ["CO"]), (["CO", "H"], ["C", "OH"])]
+    elif variant == "reduce+depletion":
+        # no removal in between: the appended reactions must be those of the REDUCED network's species
+        args += ["--reduce-by-species=H,H2,C,CH", "--append-depletion"]
+        want = [(["H", "H"], ["H2"]), (["C", "H2"], ["CH", "H"])] + [([s], ["#" + s]) for s in ("C", "CH", "H", "H2")]
+    elif variant == "reduce+desorption":
+        args += ["--reduce-by-species=H,H2", "--append-depletion", "--append-thermal-desorption"]
+        want = [(["H", "H"], ["H2"])] + [([s], ["#" + s]) for s in ("H", "H2")] + [(["#" + s], [s]) for s in ("H", "H2")]
     else:
         args += ["--remove-species=CO", "--append-depletion"]
         want = [(["H", "H"], ["H2"]), (["C", "H2"], ["CH", "H"])] + [([s], ["#" + s]) for s in ("C", "CH", "H", "H2")]
@@ -343,8 +352,8 @@ def run(res, info):
     rng = random.Random(res.seed * 7919 + 14)
     model = fw.Model() if info["ok"] else None
     ids = ident_map()
-    res.rule = ("edit histories over a 9-reaction pool (equal-but-distinct instances, two electron spellings, windows) and 6 species: "
-                "exhaustive over an 18-operation alphabet up to length 3 (thorough: 4), random histories up to length 40 (thorough: 80) "
+    res.rule = ("edit histories over a 10-reaction pool (equal-but-distinct instances, two electron spellings, windows) and 6 species: "
+                "exhaustive over a 19-operation alphabet up to length 3 (thorough: 4), random histories up to length 40 (thorough: 80) "
                 "with all ten operation kinds (additions also through add_reaction_from_file), several initial allowed/required lists; `naunet extend` variants; "
                 "non-trivial = at least two effective operations")
     res.assumptions = ["remove_reaction(int) is called with 0 <= i < len (other integers raise or wrap in Python and are skipped)",
@@ -360,7 +369,7 @@ def run(res, info):
         al = list(rng.choice(ALLOWED))
         rq = [x for x in rng.choice(REQUIRED) if not al or x in al]
         check_history(res, model, ids, al, rq, gen_random(rng, n), i)
-    for i in range(6 if res.tier == "quick" else 30):
+    for i in range(8 if res.tier == "quick" else 32):
         check_extend(res, rng, i)
     if model:
         model.close()
